@@ -56,11 +56,24 @@ type EngineAnswer struct {
 
 var scratchCounter int
 
-// RunEngine executes an EngineRequest.
-func RunEngine(req *EngineRequest) *EngineAnswer {
-	ans := &EngineAnswer{}
-	t0 := time.Now()
-	defer func() { ans.WallMs = float64(time.Since(t0).Microseconds()) / 1000 }()
+// EngineSetup is the environment prepared for an EngineRequest.
+type EngineSetup struct {
+	World   *vplug.World
+	Config  *config.Config
+	FileCtx loadfile.FileCache
+	Key     string
+	Input   []byte
+	Before  map[string]bool
+	cleanup func()
+}
+
+// Cleanup removes the scratch directory and restores the working directory.
+func (s *EngineSetup) Cleanup() { s.cleanup() }
+
+// SetupEngine writes the files, chooses the context / working directory variant, installs the
+// scripted deployer as engine.DefaultDeployerRegistry and loads the file cache.
+// A non-empty parseErr means that loading the context already failed.
+func SetupEngine(req *EngineRequest) (setup *EngineSetup, parseErr string, harnessErr string) {
 	scratchCounter++
 	base := os.Getenv("VERIF_SCRATCH")
 	if base == "" {
@@ -69,30 +82,27 @@ func RunEngine(req *EngineRequest) *EngineAnswer {
 	dir := filepath.Join(base, fmt.Sprintf("verif-eng-%d-%d", os.Getpid(), scratchCounter))
 	elsewhere := filepath.Join(base, fmt.Sprintf("verif-eng-%d-elsewhere", os.Getpid()))
 	if err := os.MkdirAll(dir, 0o755); err != nil {
-		ans.HarnessErr = err.Error()
-		return ans
+		return nil, "", err.Error()
 	}
 	_ = os.MkdirAll(elsewhere, 0o755)
-	defer os.RemoveAll(dir)
+	oldwd, _ := os.Getwd()
+	setup = &EngineSetup{cleanup: func() { _ = os.Chdir(oldwd); _ = os.RemoveAll(dir) }}
 	contents := map[string][]byte{}
 	for name, b64 := range req.Files {
 		data, err := base64.StdEncoding.DecodeString(b64)
 		if err != nil {
-			ans.HarnessErr = "bad base64 for " + name
-			return ans
+			setup.cleanup()
+			return nil, "", "bad base64 for " + name
 		}
 		contents[name] = data
 		p := filepath.Join(dir, name)
 		_ = os.MkdirAll(filepath.Dir(p), 0o755)
 		if err := os.WriteFile(p, data, 0o644); err != nil {
-			ans.HarnessErr = err.Error()
-			return ans
+			setup.cleanup()
+			return nil, "", err.Error()
 		}
 	}
-	input, _ := base64.StdEncoding.DecodeString(req.InputB64)
-
-	oldwd, _ := os.Getwd()
-	defer func() { _ = os.Chdir(oldwd) }()
+	setup.Input, _ = base64.StdEncoding.DecodeString(req.InputB64)
 	switch req.Chdir {
 	case "scratch":
 		_ = os.Chdir(dir)
@@ -106,18 +116,16 @@ func RunEngine(req *EngineRequest) *EngineAnswer {
 			ctxDir = rel
 		}
 	}
-
 	w := vplug.NewWorld(req.Script)
+	setup.World = w
 	engine.DefaultDeployerRegistry = deployerregistry.New(deployer.Any(vplug.NewFactory(w)))
-	cfg := &config.Config{
+	setup.Config = &config.Config{
 		Log:            log.Config{Level: log.LevelError, Destination: log.DestinationStdout, Stdout: discard{}},
 		LocalDeployers: map[string]any{string(vplug.DeploymentType): map[string]any{"deployer_name": vplug.DeployerName}},
 	}
-	before := goroutineIDs()
-
+	setup.Before = goroutineIDs()
 	wfName := req.WorkflowFile
-	key := wfName
-	var fileCtx loadfile.FileCache
+	setup.Key = wfName
 	if req.InMemory {
 		mem := map[string][]byte{}
 		if data, ok := contents[wfName]; ok {
@@ -128,26 +136,41 @@ func RunEngine(req *EngineRequest) *EngineAnswer {
 				mem[n] = data
 			}
 		}
-		fileCtx = loadfile.NewFileCache(ctxDir, mem)
-	} else {
-		required := map[string]string{}
-		key = "workflow"
-		name := wfName
-		if name == "" {
-			name = "workflow.yaml"
-		}
-		required[key] = name
-		fc, err := loadfile.NewFileCacheUsingContext(ctxDir, required)
-		if err != nil {
-			ans.ParseErr = "context: " + err.Error()
-			return ans
-		}
-		if err := fc.LoadContext(); err != nil {
-			ans.ParseErr = "load context: " + err.Error()
-			return ans
-		}
-		fileCtx = fc
+		setup.FileCtx = loadfile.NewFileCache(ctxDir, mem)
+		return setup, "", ""
 	}
+	setup.Key = "workflow"
+	name := wfName
+	if name == "" {
+		name = "workflow.yaml"
+	}
+	fc, err := loadfile.NewFileCacheUsingContext(ctxDir, map[string]string{setup.Key: name})
+	if err != nil {
+		return setup, "context: " + err.Error(), ""
+	}
+	if err := fc.LoadContext(); err != nil {
+		return setup, "load context: " + err.Error(), ""
+	}
+	setup.FileCtx = fc
+	return setup, "", ""
+}
+
+// RunEngine executes an EngineRequest.
+func RunEngine(req *EngineRequest) *EngineAnswer {
+	ans := &EngineAnswer{}
+	t0 := time.Now()
+	defer func() { ans.WallMs = float64(time.Since(t0).Microseconds()) / 1000 }()
+	setup, parseErr, herr := SetupEngine(req)
+	if herr != "" {
+		ans.HarnessErr = herr
+		return ans
+	}
+	defer setup.Cleanup()
+	if parseErr != "" {
+		ans.ParseErr = parseErr
+		return ans
+	}
+	w, cfg, fileCtx, key, input, before := setup.World, setup.Config, setup.FileCtx, setup.Key, setup.Input, setup.Before
 
 	type parseResult struct {
 		wf       engine.Workflow
